@@ -360,6 +360,9 @@ int pthread_mutex_unlock(pthread_mutex_t* m) {
 static int condWaitCommon(pthread_cond_t* c, pthread_mutex_t* m, bool timed, int64_t deadline) {
   REAL(lock, mutex_fn, "pthread_mutex_lock");
   REAL(unlock, mutex_fn, "pthread_mutex_unlock");
+  // A thread can be preempted between evaluating its wait predicate and starting to wait (the mutex is still held then):
+  // only a notifier that does not take the mutex can slip in, which is exactly the lost-wake-up pattern.
+  point(OP_STEP, "cond_wait entry");
   Thread& t = g_t[t_self];
   MutexRec& r = mrec(m);
   r.owner = -1;
